@@ -3,3 +3,8 @@
 (define-fun field.sub ((a Int) (b Int) (p Int)) Int (mod (- a b) p))
 (define-fun field.mul ((a Int) (b Int) (p Int)) Int (mod (* a b) p))
 (define-fun field.neg ((a Int) (p Int)) Int (mod (- a) p))
+
+(lemma sub1_bool
+  (forall ((a Int))
+    (! (=> (bits.isbool a) (= (field.sub 1 a FIELD_P) (- 1 a))) :pattern ((field.sub 1 a FIELD_P))))
+  :reveal (field.sub))
